@@ -22,11 +22,13 @@ import (
 )
 
 type Violation struct {
-	Sig     string                 `json:"sig"`
-	Detail  string                 `json:"detail"`
-	Explore string                 `json:"explore"`
-	Choices []int                  `json:"choices"`
-	Replay  map[string]interface{} `json:"replay,omitempty"`
+	Sig           string                 `json:"sig"`
+	Detail        string                 `json:"detail"`
+	Explore       string                 `json:"explore"`
+	Choices       []int                  `json:"choices"`
+	Replay        map[string]interface{} `json:"replay,omitempty"`
+	Unconfirmed   string                 `json:"unconfirmed,omitempty"`
+	ConfirmedRuns int                    `json:"confirmed_on_real_binary_runs,omitempty"`
 }
 
 type ExploreStat struct {
@@ -58,6 +60,7 @@ type Fragment struct {
 	Notes       map[string]int64       `json:"notes"`
 	Explores    []ExploreStat          `json:"explores"`
 	TimedOut    bool                   `json:"timed_out"`
+	Nondet      string                 `json:"nondeterminism,omitempty"`
 	Info        map[string]interface{} `json:"info"`
 	WallS       float64                `json:"wall_s"`
 }
@@ -384,11 +387,20 @@ func main() {
 	exit := 0
 	firstBySig := map[string]Violation{}
 	sort.SliceStable(viols, func(i, j int) bool { return len(viols[i].Choices) < len(viols[j].Choices) })
+	// prefer an example that the real binary confirmed
+	sort.SliceStable(viols, func(i, j int) bool { return viols[i].Unconfirmed == "" && viols[j].Unconfirmed != "" })
 	for _, v := range viols {
 		if _, ok := firstBySig[v.Sig]; !ok {
 			firstBySig[v.Sig] = v
 		}
 	}
+	nondet := ""
+	for _, fr := range frags {
+		if fr.Nondet != "" && nondet == "" {
+			nondet = fr.Nondet
+		}
+	}
+	inconsistent := 0
 	unlisted := 0
 	knownHit := 0
 	if replayFile == "" {
@@ -399,6 +411,13 @@ func main() {
 		if f, ok := known[s]; ok {
 			fmt.Printf("KNOWN-FINDING: property=%s %s (%s; %d occurrences in this run)\n", id, s, f.Description, violCount[s])
 			knownHit++
+			continue
+		}
+		if v.Unconfirmed != "" {
+			// the un-instrumented binary does not reproduce what the in-process run observed:
+			// the harness (not the repository) is at fault, nothing is reported as a violation
+			inconsistent++
+			fmt.Fprintf(os.Stderr, "HARNESS-INCONSISTENCY: %s signature %s not confirmed by the real binary: %s\n", id, s, tail(v.Unconfirmed, 1200))
 			continue
 		}
 		unlisted++
@@ -413,6 +432,12 @@ func main() {
 		fmt.Printf("  signature: %s  (%d occurrences)\n  %s\n", s, violCount[s], strings.ReplaceAll(tail(v.Detail, 1500), "\n", "\n  "))
 	}
 
+	if nondet != "" {
+		fmt.Fprintf(os.Stderr, "HARNESS-NONDETERMINISM: %s\n", tail(nondet, 2000))
+	}
+	if exit == 0 && (inconsistent > 0 || nondet != "") {
+		exit = 2
+	}
 	exhaustive := !timedOut
 	for _, e := range explores {
 		if !e.Complete {
@@ -456,6 +481,7 @@ func main() {
 		"chan_ops_unhooked":             rst.ChanOpsUnhooked,
 		"violation_signatures":          violCount,
 		"known_findings_hit":            knownHit,
+		"unconfirmed_signatures":        inconsistent,
 		"build_s":                       buildS,
 		"explanation":                   "every execution is a run of the implementation built from the repository's current working tree (instrumented via go build -overlay); states/transitions are nodes/edges of the explored choice tree",
 	}
